@@ -223,7 +223,8 @@ pub fn run(monitor: &dyn Monitor, cfg: &RunCfg) -> i32 {
             if let Ok(exe) = std::env::current_exe() {
                 let mut reports: Vec<String> = Vec::new();
                 let mut ran = 0u64;
-                for round in 0..12 {
+                // 96 children in the quick tier, 480 in the thorough one
+                for round in 0..(if cfg.tier == Tier::Thorough { 60 } else { 12 }) {
                     let kids: Vec<_> = (0..8)
                         .filter_map(|k| {
                             // every second child runs the whole-API probe before the monitor's own
